@@ -434,8 +434,30 @@ def m_x_Subscript(self, st, n, k):
                 lo = next(it) if parts[0] is not None else None
                 hi = next(it) if parts[1] is not None else None
                 step = next(it) if parts[2] is not None else None
-                v, raises = self.subscript(st, base, ('slice', lo, hi, step))
-                return self.with_raises(st, raises, lambda st: k(st, v))
+
+                def go(st, lo, hi, step):
+                    # a bound that is None is an absent bound (x[a:None] is x[a:])
+                    bounds = [lo, hi, step]
+                    for i_, b_ in enumerate(bounds):
+                        if isinstance(b_, VNone):
+                            bounds[i_] = None
+                        elif isinstance(b_, VDyn) and self.feasible(st, T.Val.is_VN(b_.z)):
+                            def absent(st, i_=i_):
+                                bb = list(bounds)
+                                bb[i_] = None
+                                return go(st, *bb)
+
+                            def present_(st, i_=i_, b_=b_):
+                                bb = list(bounds)
+                                bb[i_] = VDyn(b_.z)
+                                st.assume(z3.Not(T.Val.is_VN(b_.z)))
+                                v, raises = self.subscript(st, base, ('slice', bb[0], bb[1], bb[2]))
+                                return self.with_raises(st, raises, lambda st: k(st, v))
+                            if all(not (isinstance(x_, VDyn) and x_ is not b_ and self.feasible(st, T.Val.is_VN(x_.z))) for x_ in bounds if x_ is not None):
+                                return self.branch(st, T.Val.is_VN(b_.z), absent, present_, 'slice-bound-none')
+                    v, raises = self.subscript(st, base, ('slice', bounds[0], bounds[1], bounds[2]))
+                    return self.with_raises(st, raises, lambda st: k(st, v))
+                return go(st, lo, hi, step)
             return self.ev_list(st, present, got)
 
         def got_idx(st, idx):
